@@ -143,6 +143,20 @@ func mergeVal(c *T, a, b Value) (Value, bool) {
 		if y, ok := b.(MapV); ok && x.id == y.id {
 			return x, true
 		}
+	case LocalsV:
+		if y, ok := b.(LocalsV); ok {
+			ids := append([]int(nil), x.ids...)
+			have := map[int]bool{}
+			for _, i := range ids {
+				have[i] = true
+			}
+			for _, i := range y.ids {
+				if !have[i] {
+					ids = append(ids, i)
+				}
+			}
+			return LocalsV{ids}, true
+		}
 	case DeferV:
 		if y, ok := b.(DeferV); ok && len(x.list) == len(y.list) {
 			return x, true
